@@ -175,7 +175,100 @@ URL_REPLACE = Contract(
 )
 
 
+# --------------------------------------------------------------------------- URL.__init__ from an ASGI scope / a WSGI environ
+from pyvc.engine import PyRaise
+from pyvc.stubs import USED
+
+
+def urlsplit_stub(ev, args, kwargs, node):
+    """urlsplit(url): a SplitResult, or ValueError (unbalanced brackets in the authority) - A-urlsplit"""
+    USED.add("A-urlsplit")
+    st = ev.st
+    if st.choose([z3.BoolVal(True)] * 2, force_record=True) == 1:
+        raise PyRaise("ValueError", None, getattr(node, "lineno", 0))
+    return VOpaque(z3.Const(st.run.fresh_name("split"), opaque_sort("SplitResult")), "SplitResult")
+
+
+def _build_url_call(ev, args, kwargs, node):
+    from pyvc.contract import apply_contract
+    return apply_contract(ev, BUILD_URL, [ev.frame.lookup("self")] + list(args), kwargs, node)
+
+
+I_DEFS = {
+    "default_port(s)": DEFS["default_port(s)"],
+    "shost(h)": "('[' + h + ']') if (has(h, ':') and not h.startswith('[')) else h",
+    # the URL text for scheme s, path p, query bytes q, optional server sv, optional Host header hh
+    "base(s, p, sv, hh)": "(s + '://' + hh + p) if not is_none(hh) else (p if is_none(sv) else "
+                          "(s + '://' + shost(sv[0]) + p if (is_none(sv[1]) or sv[1] == default_port(s)) else "
+                          "s + '://' + shost(sv[0]) + ':' + str(sv[1]) + p))",
+    "burl(s, p, q, sv, hh)": "base(s, p, sv, hh) if q == b'' else base(s, p, sv, hh) + '?' + utf8_decode(q.decode('latin-1'))",
+}
+
+SCOPE_T = Dict(scheme=Maybe_(Str), server=Maybe_(Opt(Tup(Str, Opt(Int)))), root_path=Maybe_(Str), path=Str,
+               query_string=Maybe_(Bytes), headers=List(Tup(Bytes, Bytes)))
+
+URL_INIT_SCOPE = Contract(
+    id="URL.__init__[scope]", file=D, qualname="URL.__init__", props=["C18"],
+    params={"self": ObjT(D + ":URL"), "url": Str, "scope": SCOPE_T, "environ": NoneT, "components": Dict()},
+    applies=lambda ev, args, kwargs: "scope" in kwargs,
+    requires=["url == ''"],
+    defs=dict(I_DEFS, **{
+        "S()": "(scope['scheme'] if has(scope, 'scheme') else 'http')",
+        "SV()": "(scope['server'] if has(scope, 'server') else None)",
+        "P()": "((scope['root_path'] if has(scope, 'root_path') else '') + scope['path'])",
+        "Q()": "(scope['query_string'] if has(scope, 'query_string') else b'')",
+        "H()": "scope['headers']",
+    }),
+    ufuncs={"utf8_decode": ([Str], Str), "utf8_ok": ([Str], Bool)},
+    init_fields={"_url": Str, "_components": Opaque("SplitResult")},
+    stubs={"urlsplit": urlsplit_stub, "self._build_url": _build_url_call},
+    frame_check=False,
+    raises={"KeyError": None, "UnicodeDecodeError": None, "ValueError": None},
+    ensures={
+        # scheme (default http), root_path + path, the query bytes, the server address - and the FIRST Host header, which
+        # takes precedence over the server address
+        "url.no_host_header": "implies(forall(i, 0, len(H()), H()[i][0] != b'host'), self._url == burl(S(), P(), Q(), SV(), None))",
+        "url.first_host_header": "forall(i, 0, len(H()), implies(H()[i][0] == b'host' and forall(j, 0, i, H()[j][0] != b'host'), "
+                                 "self._url == burl(S(), P(), Q(), SV(), H()[i][1].decode('latin-1'))))",
+    },
+    locals={"host_header": Opt(Str)},
+    invariants={1: ["is_none(host_header)", "forall(j, 0, IDX, SEQ[j][0] != b'host')"]},
+    canaries={"never_a_host": "not has(self._url, '://')"},
+    assumptions=["A-urlsplit"],
+    notes="URL(scope=...): _build_url enters through its contract; urlsplit is a stub",
+)
+
+ENV_T = Dict(**{"wsgi.url_scheme": Str, "SERVER_NAME": Str, "SERVER_PORT": Str, "SCRIPT_NAME": Maybe_(Str), "PATH_INFO": Maybe_(Str),
+                "QUERY_STRING": Maybe_(Str), "HTTP_HOST": Maybe_(Str)})
+
+URL_INIT_ENVIRON = Contract(
+    id="URL.__init__[environ]", file=D, qualname="URL.__init__", props=["C18"],
+    params={"self": ObjT(D + ":URL"), "url": Str, "scope": NoneT, "environ": ENV_T, "components": Dict()},
+    applies=lambda ev, args, kwargs: "environ" in kwargs,
+    requires=["url == ''"],
+    defs=dict(I_DEFS, **{
+        "E(k)": "(environ[k] if has(environ, k) else '')",
+        "HH()": "(environ['HTTP_HOST'] if has(environ, 'HTTP_HOST') else None)",
+    }),
+    ufuncs={"utf8_decode": ([Str], Str), "utf8_ok": ([Str], Bool), "int_ok": ([Str], Bool), "int_of": ([Str], Int)},
+    init_fields={"_url": Str, "_components": Opaque("SplitResult")},
+    stubs={"urlsplit": urlsplit_stub, "self._build_url": _build_url_call},
+    frame_check=False,
+    raises={"KeyError": None, "UnicodeDecodeError": None, "UnicodeEncodeError": None, "ValueError": None},
+    ensures={
+        # PEP 3333: SCRIPT_NAME + PATH_INFO (Latin-1 text of UTF-8 bytes), QUERY_STRING, HTTP_HOST before SERVER_NAME:SERVER_PORT
+        "url": "self._url == burl(environ['wsgi.url_scheme'], utf8_decode(E('SCRIPT_NAME') + E('PATH_INFO')), "
+               "E('QUERY_STRING').encode('latin-1'), (environ['SERVER_NAME'], int_of(environ['SERVER_PORT'])), HH())",
+    },
+    canaries={"never_a_host": "not has(self._url, '://')"},
+    assumptions=["A-urlsplit", "A-int-1"],
+    notes="URL(environ=...): _build_url enters through its contract; urlsplit is a stub; int() of the port text is int_of",
+)
+
+
 def register(reg):
+    reg.add(URL_INIT_SCOPE)
+    reg.add(URL_INIT_ENVIRON)
     reg.add(BUILD_URL)
     reg.add(URL_REPLACE)
     for prop in ("components", "netloc", "port", "username", "password"):
